@@ -86,6 +86,9 @@ func info() {
 
 func runCase(p *props.Prop, c interface{}, tier string) (rec *props.Rec) {
 	rec = props.NewRec(tier)
+	if props.BeforeCase != nil {
+		props.BeforeCase()
+	}
 	rec.Guard("unguarded", func() { p.Run(c, rec) })
 	return rec
 }
